@@ -20,7 +20,7 @@ DecTextOf(x) == LET ds == BI!ToDigits(x) IN (IF x.s < 0 THEN <<45>> ELSE <<>>) \
 
 (* ---- QueryEscape ---- *)
 QEAlpha == {97, 90, 48, 45, 46, 95, 126, 43, 32, 37, 38, 61, 0, 127, 128, 255, 47}
-QEStrings == AllBytes1 \cup (IF Deep THEN Bytes(QEAlpha, 4) \cup Fn(2, 0..255) ELSE Bytes(QEAlpha, 2) \cup Fn(3, {97, 126, 43, 32, 37, 255}))
+QEStrings == AllBytes1 \cup (IF Deep THEN Bytes(QEAlpha, 3) \cup Fn(2, 0..255) ELSE Bytes(QEAlpha, 2) \cup Fn(3, {97, 126, 43, 32, 37, 255}))
 FVStrings == AllBytes1 \cup Bytes(QEAlpha, IF Deep THEN 3 ELSE 1)
 
 (* ---- Abbreviate ---- *)
@@ -28,7 +28,7 @@ AbTok == {<<97>>, <<32>>, <<46>>, <<44>>, <<195, 169>>, <<226, 130, 172>>, <<255
 AbTok3 == {<<97>>, <<32>>, <<195, 169>>}
 Flat(Q) == {Flatten(q) : q \in Q}
 AbShort == Flat(Bytes(AbTok, IF Deep THEN 4 ELSE 3))
-AbLong == Flat(UNION {Fn(k, AbTok3) : k \in 4..(IF Deep THEN 8 ELSE 5)})
+AbLong == Flat(UNION {Fn(k, AbTok3) : k \in 4..(IF Deep THEN 7 ELSE 5)})
 AbCases == SQ({<<s, n>> : s \in AbShort, n \in (IF Deep THEN -1..7 ELSE {-1, 0, 2, 3, 4, 5, 6})})
            \o SQ({<<s, n>> : s \in AbLong, n \in 3..(IF Deep THEN 9 ELSE 6)})
 
@@ -62,7 +62,7 @@ YPunct == {45, 32, 58, 10, 91, 123, 38, 42, 33, 124, 62, 39, 34, 35, 37, 64, 96,
 Padded == {w[1] \o d \o w[2] : d \in ValidDocs \cup InvalidDocs, w \in PadPairs}
 UJData == AllBytes1 \cup Fn(2, JPunct) \cup Padded
 UJCases == SQ({<<d, t>> : d \in (IF Deep THEN UJData ELSE Padded), t \in Targets})
-           \o (IF Deep THEN SQ({<<d, t>> : d \in Fn(3, JPunct), t \in {"any", "ints"}}) ELSE SQ({<<d, "any">> : d \in UJData}))
+           \o (IF Deep THEN SQ({<<d, "any">> : d \in Fn(3, JPunct)}) ELSE SQ({<<d, "any">> : d \in UJData}))
 UYData == AllBytes1 \cup Fn(2, YPunct) \cup Padded
 UYCases == SQ({<<d, t>> : d \in (IF Deep THEN UYData ELSE Padded), t \in {"any", "ints", "map", "nil", "nonptr"}})
            \o (IF Deep THEN SQ({<<d, "any">> : d \in Fn(3, YPunct)}) ELSE SQ({<<d, "any">> : d \in UYData}))
